@@ -180,8 +180,10 @@ func checkPutRemoveStmt(prop string, w *World, si int, h *HistStmt, r *StmtRes, 
 		return vs, !h.ExpectFail()
 	}
 	if h.ExpectFail() {
-		// harness expected a failure (division by zero) and none came: we have no model for this
-		st.Inc("expected_failure_did_not_fail")
+		// one of the stated expressions divides an integer by zero, yet the
+		// statement reported success: the failing pair was not evaluated (or its
+		// failure was ignored), and writes were issued
+		add("eval-failure-ignored", fmt.Sprintf("a stated key/value expression cannot be evaluated (integer division by zero) but the statement succeeded and issued %d write call(s)", len(writes)))
 		return vs, true
 	}
 	// effect: prior state overwritten in order by the evaluated pairs
